@@ -51,7 +51,9 @@ ASSUMPTIONS = [
     'smtproutes.d files are modelled (clientcert, clientkey, outgoingip, outgoingip6 are outside); ask_dnsaaaa of the relay is an oracle table',
     'the resolver (libowfat dnsmx/dnsip6 behind include/libowfatconn.h) is an oracle: MX records with 16-bit preferences in wire format, per name either addresses or '
     'a temporary / permanent / out-of-memory failure; IPv4 addresses arrive v4-mapped from dnsip6',
-    'the target is not an address literal ("[...]" branch of getmxlist is not modelled); connect_mx() (greeting, EHLO, STARTTLS, DANE) is represented only by the number of tryconn calls',
+    'the target is not an address literal ("[...]" branch of getmxlist is not modelled)',
+    'connect phase (engine mxconn): servers are scripted byte streams with close or silence at the end, OpenSSL and dnstlsa are oracles (as in C18/C04), '
+    'every connection that comes about has a scripted server; the partner name is reduced to "the entry has a name"',
 ]
 
 # ---------------------------------------------------------------- address pool
@@ -374,7 +376,9 @@ LEVEL_TEXT = ('Machine-checked Coq theorems over executable models of smtproute,
               'list once each in order and no local address is attempted on port 25. The models are tied to the C by a differential run under ASan/UBSan.')
 LEVEL_NOTE = ('Trusted: Coq kernel, translator regexes, extraction (ExtrOcamlBasic), harness, generator quality of the correspondence run, stability of glibc qsort, '
               'the file-system / lloadfilefd / libc abstractions of the route model. '
-              'Not covered by a theorem: connect_mx() (greeting / EHLO / TLS handling; a failed greeting is just another tryconn call), the statement order of main() '
+              'The connect phase is the C04/C18 model of connect_mx() composed with the tryconn model (C20_connect_*): candidates once each in order, every failure but a '
+              'silent server, dup2, a local TLS problem and the pinned-host refusal moves on (those four are the known finding F-C20-5), Z4.4.2 only after all. '
+              'Not covered by a theorem: the statement order of main() '
               '(checked by the translator and repeated in the harness, main() cannot be included), the "[address]" target form, the smtproutes.d keys other than relay/port, '
               'a whole-program Qremote run.')
 TECHNIQUE = ('Coq proofs by induction over the lists (insertion-sort invariant with a numeric key, representation invariant of the USED/CURRENT marks, '
